@@ -319,7 +319,7 @@ Section Trust.
           out_of (rn_st rn') t f = Some (File false c)).
   Proof.
     induction fs as [|f fs IH]; intros rn Hnd T; cbn [fold_left].
-    - cbn. repeat split; auto. intros f c [].
+    - cbn zeta. cbn [missing repeat app]. split; [exact T|]. split; [reflexivity|]. intros f c [].
     - inversion Hnd as [|? ? Hnot Hnd']; subst.
       assert (H1 : Trust (rn_st (fg_step t rn f))
                    /\ rn_failed (fg_step t rn f) = (match alookup (join (t_pkg t) f) (r_files r) with Some _ => [] | None => [t_label t] end) ++ rn_failed rn
@@ -327,15 +327,16 @@ Section Trust.
       { unfold fg_step. destruct (alookup (join (t_pkg t) f) (r_files r)) as [c|].
         - destruct (s_outs (rn_st rn) (join (t_pkg t) f)) as [e|] eqn:Ee.
           + destruct (str_eqb_spec (stream (e_node e)) c) as [Es|_].
-            * repeat split; auto. intros c' E. injection E as <-. unfold out_of, out_rel. rewrite Ee. cbn [option_map].
+            * split; [exact T|]. split; [reflexivity|].
+              intros c' E. injection E as <-. unfold out_of, out_rel. rewrite Ee. cbn [option_map].
               f_equal. apply good_inj; [eapply (tr_good _ T); exact Ee|apply good_file|exact Es].
-            * cbn [rn_st rn_failed]. repeat split; [apply trust_set_file; exact T|].
+            * cbn [rn_st rn_failed]. split; [apply trust_set_file; exact T|]. split; [reflexivity|].
               intros c' E. injection E as <-. unfold out_of, out_rel. rewrite set_out_same. reflexivity.
-          + cbn [rn_st rn_failed]. repeat split; [apply trust_set_file; exact T|].
+          + cbn [rn_st rn_failed]. split; [apply trust_set_file; exact T|]. split; [reflexivity|].
             intros c' E. injection E as <-. unfold out_of, out_rel. rewrite set_out_same. reflexivity.
-        - unfold fail_run. cbn [rn_st rn_failed]. repeat split; auto. intros c E. discriminate. }
+        - unfold fail_run. cbn [rn_st rn_failed]. split; [exact T|]. split; [reflexivity|]. intros c E. discriminate. }
       destruct H1 as (T1 & Hf1 & Ho1). destruct (IH (fg_step t rn f) Hnd' T1) as (T2 & Hf2 & Ho2).
-      cbn zeta. repeat split; [exact T2| |].
+      cbn zeta. split; [exact T2|]. split.
       + rewrite Hf2, Hf1. cbn [missing]. destruct (alookup (join (t_pkg t) f) (r_files r)); cbn [app]; [reflexivity|].
         change (t_label t :: rn_failed rn) with (repeat (t_label t) 1 ++ rn_failed rn).
         rewrite app_assoc, <- repeat_app. f_equal. f_equal. lia.
@@ -448,7 +449,7 @@ Section Trust.
             || match find_target (r_targets r) l with Some _ => false | None => true end) (label_srcs (t_srcs t)) = true).
         { apply existsb_exists. exists l. split; [exact Hl|]. rewrite <- Hdl. apply mem_In in Hi. rewrite Hi. reflexivity. }
         congruence. }
-      destruct (Hag d Hd Hnf o Ho) as [E _]. unfold out_of in E. rewrite Hrel. symmetry. exact E. }
+      destruct (Hag d Hd Hnf o Ho) as [E _]. unfold out_of in E. rewrite Hrel. exact E. }
     rewrite Hg. reflexivity.
   Qed.
 
@@ -484,19 +485,20 @@ Section Trust.
           unfold out_of. rewrite (Fa _ Hnot), (Fb _ Hnot). apply (Hag d Hd); [|exact Ho].
           intros Hi. apply Hnf. destruct (build_one_failed false r a t) as [n Hn]. rewrite Hn. apply in_or_app. right. exact Hi.
         * (* the target just built *)
-          destruct (blocked r a d) eqn:Eb.
+          destruct (blocked r a t) eqn:Eb.
           { exfalso. apply Hnf. unfold build_one. rewrite Eb. left. reflexivity. }
-          destruct (build_one_spec a done d todo Hs Eb Ta) as [_ Sa].
-          rewrite <- Ebb in Eb. destruct (build_one_spec b done d todo Hs Eb Tb) as [_ Sb]. rewrite Ebb in Eb.
-          rewrite <- (outcome_agree done d todo a b Hs Hf Eb Hag) in Sb.
-          destruct (outcome (rn_st a) d) as [news|] eqn:Eo.
+          destruct (build_one_spec a done t todo Hs Eb Ta) as [_ Sa].
+          assert (Ebf : blocked r b t = false) by congruence.
+          destruct (build_one_spec b done t todo Hs Ebf Tb) as [_ Sb].
+          rewrite <- (outcome_agree done t todo a b Hs Hf Eb Hag) in Sb.
+          destruct (outcome (rn_st a) t) as [news|] eqn:Eo.
           -- destruct Sa as [_ Sa], Sb as [_ Sb]. destruct (Sa o Ho) as [Ea Hne], (Sb o Ho) as [Eb' _].
              rewrite Ea, Eb'. split; [reflexivity|exact Hne].
           -- exfalso. apply Hnf. rewrite Sa.
-             assert (Hpos : fail_count d <> 0).
-             { unfold fail_count, outcome in *. destruct (is_filegroup d); [|discriminate].
-               destruct (missing d (outputs d)); [discriminate|discriminate]. }
-             destruct (fail_count d); [congruence|]. left. reflexivity.
+             assert (Hpos : fail_count t <> 0).
+             { unfold fail_count, outcome in *. destruct (is_filegroup t); [|discriminate].
+               destruct (missing t (outputs t)); [discriminate|discriminate]. }
+             destruct (fail_count t); [congruence|]. left. reflexivity.
   Qed.
 
   Theorem builds_agree sta stb : Trust sta -> Trust stb ->
@@ -512,3 +514,116 @@ Section Trust.
     f_equal. apply (Hag t Ht Hnf o Ho).
   Qed.
 End Trust.
+
+(* ------------------------------------------------------------------------------------------ *)
+(* histories *)
+From PlzV Require Import Model.C01.
+
+Lemma restrict_incl r req t : In t (r_targets (restrict r req)) -> In t (r_targets r).
+Proof. unfold restrict. cbn [r_targets]. intros H. apply filter_In in H. apply H. Qed.
+
+Section History.
+  Variable U : target -> Prop.
+  Variable good : node -> Prop.
+  Hypothesis U_inj : forall t t', U t -> U t' -> t_defkey t = t_defkey t' -> t = t'.
+  Hypothesis good_inj : forall a b, good a -> good b -> stream a = stream b -> a = b.
+  Hypothesis good_file : forall c, good (File false c).
+  Hypothesis act_good : forall t ins news, U t -> Forall good (map snd ins) ->
+    act (t_kind t) (outputs t) ins = Some news -> Forall good (map snd news).
+
+  Let TrustU := Trust U good.
+
+  Lemma step_wf_parts r req : step_wf (HBuild false r req) = true ->
+    WF (restrict r req) /\ distinct_srcs (restrict r req) = true.
+  Proof. cbn [step_wf]. intros H. apply andb_prop in H. destruct H as [H1 H2]. split; [apply wf_repo_WF; exact H1|exact H2]. Qed.
+
+  Lemma trust_history : forall h st, forallb step_wf h = true -> cache_free h = true ->
+    (forall t, In t (history_targets h) -> U t) -> TrustU st -> TrustU (run_history h st).
+  Proof.
+    induction h as [|s0 h IH]; intros st Hwf Hcf HU T; [exact T|].
+    cbn [forallb] in Hwf. apply andb_prop in Hwf. destruct Hwf as [Hs Hwf].
+    cbn [cache_free forallb] in Hcf. apply andb_prop in Hcf. destruct Hcf as [Hc Hcf].
+    unfold run_history. cbn [fold_left]. apply IH; try assumption.
+    - intros t Ht. apply HU. cbn [history_targets flat_map]. apply in_or_app. right. exact Ht.
+    - destruct s0 as [c r req|]; cbn [do_hstep].
+      + apply negb_true_iff in Hc. subst c. destruct (step_wf_parts r req Hs) as [W Hd].
+        unfold plz_build.
+        apply (builds_agree U good U_inj good_inj good_file act_good (restrict r req) W Hd) with (stb := st); try exact T.
+        intros t Ht. apply HU. cbn [history_targets flat_map]. apply in_or_app. left. apply restrict_incl in Ht. exact Ht.
+      + apply trust_wipe. exact T.
+  Qed.
+
+  (* after any history, an incremental build agrees with a clean one *)
+  Theorem incremental_is_clean h r req :
+    forallb step_wf (h ++ [HBuild false r req]) = true -> cache_free h = true ->
+    (forall t, In t (history_targets (h ++ [HBuild false r req])) -> U t) ->
+    let incr := plz_build false r req (run_history h empty_store) in
+    let clean := plz_build false r req empty_store in
+    rn_failed incr = rn_failed clean
+    /\ forall t, In t (r_targets (restrict r req)) -> ~ In (t_label t) (rn_failed clean) ->
+       outs_of (rn_st incr) t = outs_of (rn_st clean) t.
+  Proof.
+    intros Hwf Hcf HU. rewrite forallb_app in Hwf. apply andb_prop in Hwf. destruct Hwf as [Hwfh Hlast].
+    cbn [forallb] in Hlast. apply andb_prop in Hlast. destruct Hlast as [Hlast _].
+    destruct (step_wf_parts r req Hlast) as [W Hd].
+    assert (T : TrustU (run_history h empty_store)).
+    { apply trust_history; try assumption.
+      - intros t Ht. apply HU. unfold history_targets. rewrite flat_map_app. apply in_or_app. left. exact Ht.
+      - apply trust_empty. }
+    cbn zeta. unfold plz_build.
+    assert (HUr : forall t, In t (r_targets (restrict r req)) -> U t).
+    { intros t Ht. apply HU. unfold history_targets. rewrite flat_map_app. apply in_or_app. right.
+      cbn [flat_map]. rewrite app_nil_r. apply restrict_incl in Ht. exact Ht. }
+    destruct (builds_agree U good U_inj good_inj good_file act_good (restrict r req) W Hd HUr
+                (run_history h empty_store) empty_store T (trust_empty U good)) as (_ & Hf & Ho).
+    split; [exact Hf|]. intros t Ht Hnf. apply Ho; [exact Ht|]. rewrite Hf. exact Hnf.
+  Qed.
+End History.
+
+(* ------------------------------------------------------------------------------------------ *)
+(* the instance: trees that are regular files; the stream of a file is its content *)
+
+Definition is_file (n : node) : Prop := exists c, n = File false c.
+
+Lemma is_file_inj a b : is_file a -> is_file b -> stream a = stream b -> a = b.
+Proof. intros [c ->] [c' ->]. cbn [stream]. intros ->. reflexivity. Qed.
+
+Lemma act_files t ins news : defect_class t = None -> Forall is_file (map snd ins) ->
+  act (t_kind t) (outputs t) ins = Some news -> Forall is_file (map snd news).
+Proof.
+  unfold defect_class. intros Hc _. destruct (t_kind t) as [c| |content]; cbn [act].
+  - destruct c.
+    + destruct (outputs t) as [|o rest]; [discriminate|]. destruct (all_files ins) as [x|]; [|discriminate].
+      intros H. injection H as <-. cbn [map snd]. constructor; [eexists; reflexivity|].
+      rewrite map_map. cbn [snd]. apply Forall_forall. intros n Hn. apply in_map_iff in Hn. destruct Hn as [o' [<- _]]. eexists; reflexivity.
+    + discriminate Hc.
+    + destruct (outputs t) as [|o [|o2 rest]]; try discriminate. intros H. injection H as <-.
+      cbn [map snd]. constructor; [eexists; reflexivity|constructor].
+    + intros H. injection H as <-. rewrite map_map. cbn [snd]. apply Forall_forall. intros n Hn.
+      apply in_map_iff in Hn. destruct Hn as [o' [<- _]]. eexists; reflexivity.
+    + discriminate.
+  - discriminate.
+  - destruct (outputs t) as [|o [|o2 rest]]; try discriminate. intros H. injection H as <-.
+    cbn [map snd]. constructor; [eexists; reflexivity|constructor].
+Qed.
+
+(* C01, partial: histories without directory outputs *)
+Theorem incremental_is_clean_files h r req :
+  wf_history (h ++ [HBuild false r req]) -> cache_free h = true -> dir_free (h ++ [HBuild false r req]) ->
+  let incr := plz_build false r req (run_history h empty_store) in
+  let clean := plz_build false r req empty_store in
+  run_ok incr = run_ok clean
+  /\ rn_failed incr = rn_failed clean
+  /\ forall t, In t (r_targets (restrict r req)) -> ~ In (t_label t) (rn_failed clean) ->
+     outs_of (rn_st incr) t = outs_of (rn_st clean) t.
+Proof.
+  intros [Hwf Hkeys] Hcf Hdf.
+  set (U := fun t => In t (history_targets (h ++ [HBuild false r req]))).
+  assert (H1 : forall t t', U t -> U t' -> t_defkey t = t_defkey t' -> t = t') by (intros t t' Ht Ht'; apply Hkeys; assumption).
+  assert (H2 : forall c, is_file (File false c)) by (intros c; exists c; reflexivity).
+  assert (H3 : forall t ins news, U t -> Forall is_file (map snd ins) ->
+             act (t_kind t) (outputs t) ins = Some news -> Forall is_file (map snd news))
+    by (intros t ins news Ut; apply act_files; apply Hdf; exact Ut).
+  destruct (incremental_is_clean U is_file H1 is_file_inj H2 H3 h r req Hwf Hcf (fun t Ht => Ht)) as [Hf Ho].
+  cbn zeta in *. split; [unfold run_ok; rewrite Hf; reflexivity|]. split; [exact Hf|exact Ho].
+Qed.
